@@ -303,3 +303,20 @@ PROPS["C17"] = dict(
     design_ref="DESIGN.md §5 C17",
     rule="cases = (helper, unitary family / v matrix, wavefunction, norb, t) runs; every case distinct by index",
 )
+
+PROPS["C19"] = dict(
+    level="proof",
+    technique="Lean 4 theorems (the overlap combination of the ACSE element equals <[T,A]>; the non-commutative ring "
+              "identities behind the sum-of-squares form of the doubles factorisation, by noncomm_ring) + exact "
+              "element-by-element correspondence of the residual tensors with Spec commutator expectation values and "
+              "of the reassembled factorisation with the generator's Spec action",
+    text="PARTIAL proof: the scalar and ring algebra the routines rely on is proved in general; SVD/Takagi are external, so "
+         "'squares plus remainder sum back to the generator' is decided by applying both operators (written out in ladder "
+         "operators) to random states with the Spec driver. Every element of get_acse_residual_fqe and of two_rdo_commutator "
+         "(fed with exact 2- and 3-RDMs produced by the Spec driver) is compared with <psi|[p^ q^ r s, A]|psi> computed in Lean; "
+         "normality of every returned one-body operator is checked.",
+    note="Lean kernel + Mathlib ring/noncomm_ring; numpy SVD and the Takagi routine are called, not verified; norb = 2 (nso = 4).",
+    design_ref="DESIGN.md §5 C19",
+    rule="cases = tensor elements (256 per tensor) of the two routes, factorisation reassemblies per method; non-trivial = "
+         "non-zero exact element; distinct by (case, indices)",
+)
